@@ -82,6 +82,9 @@ def chain_case(draw):
             node = {"compose": sub}
             if draw(st.booleans()):
                 node["name"] = "comp%d" % k
+            if draw(st.integers(0, 2)) == 0:
+                # attributes given to the composition itself
+                node["kw"] = draw(st.dictionaries(st.sampled_from(ATTRS), attr_vals, min_size=1, max_size=2))
             chain.append(node)
     pre_kind = draw(st.sampled_from(["none", "none", "unrelated", "untyped_var"])) if not pre else "typed"
     ctx = None
@@ -92,7 +95,10 @@ def chain_case(draw):
     if pre_kind == "untyped_var":
         ctx = ctx or {}
         ctx["variable"] = {"name": "old"}
-    return {"pre": pre, "chain": chain, "ctx": ctx, "data": draw(st.integers(-5, 5)),
+    data = draw(st.integers(-5, 5))
+    if ctx is not None and draw(st.integers(0, 5)) == 0:
+        data = [data, {"det": "A"}]
+    return {"pre": pre, "chain": chain, "ctx": ctx, "data": data,
             "repeat": draw(st.integers(1, 3)),
             "untyped_at": draw(st.one_of(st.none(), st.none(), st.integers(0, 4)))}
 
@@ -106,9 +112,10 @@ def build_var(spec, untyped=False):
 def build_node(node, untyped_names=()):
     if "compose" in node:
         vs = [build_var(s, s["name"] in untyped_names) for s in node["compose"]]
+        kw = copy.deepcopy(node.get("kw", {}))
         if "name" in node:
-            return Compose(*vs, name=node["name"])
-        return Compose(*vs)
+            kw["name"] = node["name"]
+        return Compose(*vs, **kw)
     return build_var(node, node["name"] in untyped_names)
 
 
@@ -122,10 +129,17 @@ def flat_specs(chain):
     return out
 
 
+def mkdata(d):
+    # data that itself looks like a (value, dictionary) pair
+    if isinstance(d, list):
+        return (d[0], copy.deepcopy(d[1]))
+    return d
+
+
 def mkvalue(case):
     if case["ctx"] is None:
-        return case["data"]
-    return (case["data"], copy.deepcopy(case["ctx"]))
+        return mkdata(case["data"])
+    return (mkdata(case["data"]), copy.deepcopy(case["ctx"]))
 
 
 def judge_chain(case):
@@ -142,7 +156,7 @@ def judge_chain(case):
         return val
 
     # expected data
-    d = case["data"]
+    d = mkdata(case["data"])
     for s in case["pre"] + flat:
         d = FUNCS[s["f"]](d)
 
@@ -161,7 +175,15 @@ def judge_chain(case):
     classes = ["len=%d" % len(flat), "pre=%d" % len(case["pre"]),
                "nested" if len(flat) != len(chain) else "flat",
                "untyped" if untyped else "typed"]
-    if not untyped:
+    has_kw = any("kw" in n for n in chain)
+    if has_kw:
+        classes.append("compose-with-attributes")
+    if not untyped and has_kw:
+        # (the attributes of a nested composition are its own: only Compose == Sequence is judged)
+        if r_cmp != r_seq:
+            raise Violation("compose-differs-from-sequence",
+                            "Compose: %r\nSequence: %r\ncase %s" % (r_cmp[1], r_seq[1], short(case, 600)))
+    elif not untyped:
         if r_cmp != r_seq:
             raise Violation("compose-differs-from-sequence",
                             "Compose: %r\nSequence: %r\ncase %s" % (r_cmp[1], r_seq[1], short(case, 600)))
@@ -247,9 +269,17 @@ def combine_case(draw):
     n = draw(st.integers(1, 4))
     types = draw(st.permutations(TYPES))
     vs = [draw(varspec(i, types[i])) for i in range(n)]
+    if n >= 2 and draw(st.integers(0, 3)) == 0:
+        # different variables may have equal names
+        for v in vs[1:]:
+            if draw(st.booleans()):
+                v["name"] = vs[0]["name"]
     ctx = draw(st.one_of(st.none(), st.dictionaries(
         st.sampled_from(["z", "q"]), st.integers(0, 3), max_size=2)))
-    return {"vars": vs, "ctx": ctx, "data": draw(st.integers(-5, 5)),
+    data = draw(st.integers(-5, 5))
+    if ctx is not None and draw(st.integers(0, 5)) == 0:
+        data = [data, {"det": "A"}]
+    return {"vars": vs, "ctx": ctx, "data": data,
             "name": draw(st.one_of(st.none(), st.just("cmb"))),
             "untyped": draw(st.booleans()),
             "kw": draw(st.dictionaries(st.sampled_from(ATTRS), attr_vals, max_size=1))}
@@ -265,7 +295,7 @@ def judge_combine(case):
     csnap = copy.deepcopy(c.var_context)
     val = mkvalue(case)
     data, ctx = c(val)
-    exp = tuple(FUNCS[s["f"]](case["data"]) for s in case["vars"])
+    exp = tuple(FUNCS[s["f"]](mkdata(case["data"])) for s in case["vars"])
     if data != exp or not isinstance(data, tuple):
         raise Violation("combine-data-differs", "%r expected %r" % (data, exp))
     cv = ctx.get("variable", {})
